@@ -1,8 +1,29 @@
 import TmVerif.Model.LRXProto
+import TmVerif.Model.LRXSafe
 namespace TmVerif.DriverC19
+open TmVerif.LR TmVerif.LRX TmVerif.LRSound
+
+/-- `xvalidate <grammar 6> <xtables…>` : the hypotheses of `C19_no_panic` / `C19_recovery_terminates`
+on the real tables: the soundness certificate of the core tables (`LRSound.certOk`) and the
+well-formedness of the recovery/report data with the rank certificate (`LRX.xwf`). -/
+def xvalidate (args : List String) : Option String := do
+  let g ← CFG.parseGrammar (args.take 6)
+  let (x, rest) ← parseXTables (args.drop 6)
+  if !rest.isEmpty then none
+  let cert := computePast g x.t
+  if !certOk g x.t cert then
+    some s!"mismatch soundness certificate: {firstFailure g x.t cert}"
+  else
+    let xc := mkXCert g x
+    if !xwf g x cert xc then some s!"mismatch {xwfFailure g x cert xc}"
+    else if !xhaltOk g x cert then
+      some s!"mismatch halting check: reachXOk={reachXOk g x cert} eoiOk={eoiOk g x cert}"
+    else some "ok"
+
 /-- `xrun …` : the extended runtime model's listener/error-handler trace (see Model/LRXProto.lean). -/
 def handle (args : List String) : Option String :=
   match args with
   | "xrun" :: rest => TmVerif.LRX.handleXRun rest
+  | "xvalidate" :: rest => xvalidate rest
   | _ => none
 end TmVerif.DriverC19
